@@ -69,7 +69,14 @@ SIG_NB = 'C09/neighbour-count-above-14'
 # ------------------------------------------------------------------------------------------------
 
 def generate(ctx):
-    paths = [gen_periodic.generate()[0], gen_query.generate()]
+    paths = [gen_periodic.generate()[0]]
+    try:
+        # C08's table (element flags used by C08's `notMetal`); its translator also parses the SMARTS tokenizer, which is not
+        # this property's business: when it cannot, the committed table stays and `anyMetal_flags_agree` (Props/C09.lean) ties
+        # it to the flags re-extracted here
+        paths.append(gen_query.generate())
+    except Exception as e:
+        _state['gen_query_error'] = f'{type(e).__name__}: {e}'
     p, info = gen_bitlayout.generate()
     _state['layout'] = info
     return paths + [p]
@@ -1138,6 +1145,10 @@ def correspond(ctx):
         pairs = pair_stream(ctx, 20000, 16000, 3000)
     stream_gm(ctx, pairs)
     ctx.exhaustive = False
+    if _state.get('gen_query_error'):
+        ctx.notes.append('gen_query (C08 translator) could not run: ' + _state['gen_query_error'][:300] +
+                         ' — Gen/QueryTables.lean left as committed; theorem anyMetal_flags_agree ties its element flags to the '
+                         'flags re-extracted by gen_bitlayout')
     shape = _state.get('layout', {}).get('shape_changed')
     if shape:
         # the translator could not re-extract the literals because the shape of the source changed; the model still carries
